@@ -1,2 +1,34 @@
+(* C08 - header schema and request/response pairing.  The per-tree instance theorem
+   (inst/InstC08.v: c08_ok shipped n = true, exhaustive over all classes of request/response
+   modules) evaluates boolean predicates; here: what their `true` means, and that the header rule
+   is the one the property states (and the one of the generator model). *)
 From Coq Require Import ZArith List Bool String.
-From KioV Require Import Schema.Raw Schema.Coherence.
+From KioV Require Import Schema.Raw Schema.Coherence Schema.CoherenceProofs Gen.Gen.
+Import ListNotations.
+
+Theorem c08_request_header_rule : forall k v f,
+  request_header_version k v f = (if (Z.eqb k 7 && Z.eqb v 0)%bool then 0 else if f then 2 else 1)%Z.
+Proof. exact request_header_rule. Qed.
+Theorem c08_v0_only_for_controlled_shutdown_v0 : forall k v f,
+  request_header_version k v f = 0%Z <-> (k = 7 /\ v = 0)%Z.
+Proof. exact request_header_v0_only_controlled_shutdown_v0. Qed.
+Theorem c08_response_header_rule : forall k f,
+  response_header_version k f = (if Z.eqb k 18 then 0 else if f then 1 else 0)%Z.
+Proof. exact response_header_rule. Qed.
+Theorem c08_response_v1_iff : forall k f, response_header_version k f = 1%Z <-> (k <> 18%Z /\ f = true).
+Proof. exact response_header_v1_iff. Qed.
+Print Assumptions c08_v0_only_for_controlled_shutdown_v0.
+
+(* request -> response -> request (and dually) are mutually inverse, with shared key and flexibility *)
+Theorem c08_pairing_request : forall s i c, pair_ok s (i, c) = true -> rc_type c = Some ETRequest ->
+  exists j d, load_response_from_request s i = IOk j /\ nth_error (s_classes s) j = Some d /\
+              rc_type d = Some ETResponse /\ opt_z_eqb (rc_api_key d) (rc_api_key c) = true /\
+              opt_bool_eqb (rc_flexible d) (rc_flexible c) = true /\ load_request_from_response s j = IOk i.
+Proof. exact pair_ok_request. Qed.
+Theorem c08_pairing_response : forall s i c, pair_ok s (i, c) = true -> rc_type c = Some ETResponse ->
+  exists j d, load_request_from_response s i = IOk j /\ nth_error (s_classes s) j = Some d /\
+              rc_type d = Some ETRequest /\ opt_z_eqb (rc_api_key d) (rc_api_key c) = true /\
+              opt_bool_eqb (rc_flexible d) (rc_flexible c) = true /\ load_response_from_request s j = IOk i.
+Proof. exact pair_ok_response. Qed.
+Print Assumptions c08_pairing_request.
+Print Assumptions c08_pairing_response.
